@@ -45,4 +45,9 @@ example : ∃ c : Conn, Live c ∧ Chunks c.sock.inp ∧ Cleared c ∧
    ⟨rfl, rfl⟩, by intro e he; simp at he; rcases he with rfl | rfl <;> exact ⟨_, rfl, by simp⟩, ⟨rfl, rfl, rfl⟩,
    by decide⟩
 
+/-- generated fact: iteration is receiving — `__iter__` is exactly `while True: yield self.recv()`, `__next__` is
+    `return self.recv()`, `next` is `return self.__next__()`; the model's one receive operation stands for all of them (the
+    correspondence runs every other session through these spellings). -/
+theorem iteration_is_recv : Gen.iterationIsRecv = true := by decide
+
 end WS.Props.C02
